@@ -32,6 +32,10 @@ import multiprocessing as mp
 
 VERIF_DIR = os.path.dirname(os.path.dirname(os.path.abspath(__file__)))
 REPO_DIR = os.environ.get("VERIF_REPO", "/repo")
+# evidence and replay files of runs pointed at a scratch copy (sensitivity
+# self-tests) never land in /verif
+OUT_DIR = VERIF_DIR if os.path.realpath(REPO_DIR) == "/repo" else os.environ.get(
+    "VERIF_OUT", "/dev/shm/verif-scratch-out")
 
 
 # --------------------------------------------------------------------------
@@ -257,7 +261,7 @@ def minimise(sim, cfg, ops, finding: Finding):
 
 def write_replay(sim_name, prop, finding: Finding, seed, stratum, index, cfg, ops,
                  hash_seed="0"):
-    d = os.path.join(VERIF_DIR, "replays", prop)
+    d = os.path.join(OUT_DIR, "replays", prop)
     os.makedirs(d, exist_ok=True)
     tag = hashlib.sha256(finding.key_str().encode()).hexdigest()[:10]
     path = os.path.join(d, f"{tag}-s{seed}-{stratum}-{index}.json")
@@ -306,7 +310,7 @@ def n_workers() -> int:
 
 
 def write_evidence(prop, tier, seed, coverage, wall_s, violations, assumptions):
-    d = os.path.join(VERIF_DIR, "evidence")
+    d = os.path.join(OUT_DIR, "evidence")
     os.makedirs(d, exist_ok=True)
     path = os.path.join(d, f"{prop}.json")
     tmp = path + ".tmp"
